@@ -112,6 +112,14 @@ func VerifC07Crash() {
 	if which >= 2 {
 		symx.Assert(db.Finalize([]node.Root{r2}) == nil, "Finalize of version 2 failed")
 	}
+	if symx.Cfg("sibling", 0) == 1 {
+		// another candidate root of version 2 was committed before the interrupted operation and is never finalized
+		ts := mkvs.NewWithRoot(nil, db, r1)
+		symx.Assert(ts.Insert(ctx, symx.Bytes("sibKey", 1), symx.Bytes("sibVal", 1)) == nil, "Insert failed")
+		_, _, err := ts.Commit(ctx, ns, 2)
+		symx.Assert(err == nil, "Commit of the competing root failed")
+		ts.Close()
+	}
 	c07Arm(crashAt)
 	crashed, opErr := c07Run(func() error {
 		switch which {
@@ -170,5 +178,16 @@ func VerifC07Crash() {
 	}
 	symx.Assert(db.HasRoot(r2), "version 2 not present after the operation was repeated")
 	c06CheckRoot(ctx, db, r2, c2, probe, "after repeating the operation (version 2)")
+	// the outcome of an uninterrupted run includes the write log of the transition (what storage sync serves)
+	if which <= 1 && r1.Hash != r2.Hash {
+		it, err := db.GetWriteLog(ctx, r1, r2)
+		symx.Assert(err == nil, "after repeating the operation the write log of the committed version is missing")
+		replica := mkvs.NewWithRoot(nil, db, r1)
+		symx.Assert(replica.ApplyWriteLog(ctx, it) == nil, "applying the write log failed")
+		_, got, err := replica.Commit(ctx, ns, 2, mkvs.NoPersist())
+		symx.Assert(err == nil && got == r2.Hash, "after repeating the operation the write log does not lead to the committed root")
+		replica.Close()
+		symx.Cover("writelog")
+	}
 	symx.Cover("end")
 }
